@@ -82,6 +82,10 @@ static void step_fail(hist_t *h, const char *op, const char *sig, const char *fm
 static void check_factor_step(hist_t *h, const char *op, int_t info, int usepr, const int_t *perm_r_in)
 {
     const slu_vt *vt = h->vt; int n = h->n; csc_q F = factored_view(h->M); char msg[400];
+    if (info > n && h->lwork > 0 && P_int("ws_tight", 0)) {
+        /* the caller's workspace was sized for one thread only: running out of it when more threads ask for work areas is the
+           documented outcome (info = bytes + n); the factors are unusable afterwards, so the history ends here */
+        feat_add("ws_exhausted", 1); feat("nops", G->nops); verdict_pass(); }
     if (info > n && h->lwork > 0) step_fail(h, op, "C08:workspace_exhausted_in_history", "info=%d > n: the caller's workspace of %ld bytes (sized from the library's own query for the largest thread count) ran out at this step", (int)info, h->lwork);
     if (info < 0 || info > n) step_fail(h, op, "oracle:info_out_of_range", "info=%d", (int)info);
     if (info != 0) { ld g, mp; if (h->u >= 1.0 && ref_nonsingular(vt, &F, &g, &mp)) step_fail(h, op, "oracle:info_nonzero", "info=%d for values the reference factors without trouble (min pivot/amax %.2Le)", (int)info, mp);
@@ -307,6 +311,11 @@ static void op_gssvx(hist_t *h, const char *op)
         const char *bad = validate_LU(vt, n, &L, &U, 1, 1); if (bad) step_fail(h, op, "oracle:LU_malformed", "%s", bad);
         if (!is_perm(pr, n) || !is_perm(pc, n)) step_fail(h, op, "oracle:perm_not_bijection", "expert driver returned a non-permutation");
         h->probe_hash = fnv1a(xval, vt->esize * (size_t)n * nrhs, fnv1a(pr, sizeof(int_t) * n, fnv1a(pc, sizeof(int_t) * n, hash_LU(vt, &L, &U))));
+        /* the expert driver's scalar outputs belong to the result as well: condition estimate, pivot growth, error bounds, scalings */
+        h->probe_hash = fnv1a(&rc, sizeof rc, fnv1a(&rpg, sizeof rpg, fnv1a(&eq, sizeof eq, h->probe_hash)));
+        if (info == 0) h->probe_hash = fnv1a(fe, vt->rsize * (size_t)nrhs, fnv1a(be, vt->rsize * (size_t)nrhs, h->probe_hash));
+        if (eq == ROW || eq == BOTH) h->probe_hash = fnv1a(R, vt->rsize * (size_t)n, h->probe_hash);
+        if (eq == COL || eq == BOTH) h->probe_hash = fnv1a(C, vt->rsize * (size_t)n, h->probe_hash);
     } else if (info < 0 || info > n + 1) step_fail(h, op, "oracle:info_out_of_range", "info=%d", (int)info);
     else { h->probe_hash = fnv1a(&info, sizeof info, 0); feat_add("singular_steps", 1); }
     g_track = 1; Destroy_SuperNode_SCP(&L); Destroy_CompCol_NCP(&U); g_track = 0;
@@ -398,28 +407,49 @@ void prop_C08(void)
     verdict_pass();
 }
 
+static void c17_leak_fail(const char *when)
+{
+    long cnt = live_count(); if (cnt == 0) return;
+    char d[1200]; live_describe(d, sizeof d, 6);
+    /* signature: innermost library frames of the first survivor */
+    char sg[200]; snprintf(sg, sizeof sg, "C17:leak:%.150s", d); char *e = strchr(sg + 9, ']'); if (e) e[1] = 0;
+    /* strip size and raw addresses so that the signature is the call chain only */
+    { char t[200]; size_t o = 0; const char *q = sg; while (*q && o + 1 < sizeof t) { if (q[0] == '0' && q[1] == 'x') { while (*q && *q != '<' && *q != ']') q++; if (q[0] == '<' && q[1] == '-') q += 2; continue; }
+          if (*q == '[') { t[o++] = *q++; while (*q && *q != '@') q++; if (*q == '@') q++; continue; } t[o++] = *q++; } t[o] = 0; snprintf(sg, sizeof sg, "%s", t); }
+    verdict_fail(sg, "%s %ld library blocks (%ld bytes) are still live: %s", when, cnt, live_bytes(), d);
+}
+
+/* C17 through the expert driver (all fact / trans / storage / nrhs combinations of C07's generator, including nrhs = 0, row-wise
+   input and the FACTORED two-step history): after the call(s) and the documented destroy routines nothing may stay allocated */
+#include "xd.h"
+static void c17_expert(void)
+{
+    int t0 = count_tasks(), f0 = count_fds();
+    live_mark_epoch();
+    xd_t d; xd_first(&d);
+    xd_check(&d, 1);
+    fx_t *x = &d.x; int n = x->n;
+    if (x->have_LU && d.info >= 0 && d.info <= n + 1) { g_track = 1; Destroy_SuperNode_SCP(&x->L); Destroy_CompCol_NCP(&x->U); g_track = 0; }
+    c17_leak_fail("after the expert driver call(s) and the documented destroy calls");
+    if (tasks_after(t0) != t0) verdict_fail("C17:thread_outlives_call", "threads before %d after %d", t0, count_tasks());
+    if (count_fds() != f0) verdict_fail("C17:fd_leak", "open file descriptors before %d after %d", f0, count_fds());
+    verdict_pass();
+}
+
 /* C17: everything allocated by the library during the history must be gone after the documented destroy calls */
 void prop_C17(void)
 {
+    if (!strcmp(P_str("mode", "history"), "expert")) c17_expert();
     hist_t h; hist_init(&h);
     g_exit_policy = EXITPOL_VIOLATION;
     int t0 = count_tasks(), f0 = count_fds();
     live_mark_epoch();
     void *orig = hx_malloc(h.vt->esize * (h.M->nnz + 1)); memcpy(orig, h.M->val, h.vt->esize * h.M->nnz);
-    long after[3] = { 0, 0, 0 };
     for (int rep = 0; rep < 3; ++rep) {
         memcpy(h.M->val, orig, h.vt->esize * h.M->nnz); refresh_cval(h.M);
         run_history(&h, rep);
         op_destroy(&h);
-        after[rep] = live_bytes();
-        long cnt = live_count();
-        if (cnt != 0) { char d[1200]; live_describe(d, sizeof d, 6);
-            /* signature: innermost library frames of the first survivor */
-            char sg[200]; snprintf(sg, sizeof sg, "C17:leak:%.150s", d); char *e = strchr(sg + 9, ']'); if (e) e[1] = 0;
-            /* strip size and raw addresses so that the signature is the call chain only */
-            { char t[200]; size_t o = 0; const char *q = sg; while (*q && o + 1 < sizeof t) { if (q[0] == '0' && q[1] == 'x') { while (*q && *q != '<' && *q != ']') q++; if (q[0] == '<' && q[1] == '-') q += 2; continue; }
-                  if (*q == '[') { t[o++] = *q++; while (*q && *q != '@') q++; if (*q == '@') q++; continue; } t[o++] = *q++; } t[o] = 0; snprintf(sg, sizeof sg, "%s", t); }
-            verdict_fail(sg, "after repetition %d of the history and the documented destroy calls %ld library blocks (%ld bytes) are still live: %s", rep + 1, cnt, after[rep], d); }
+        { char when[80]; snprintf(when, sizeof when, "after repetition %d of the history and the documented destroy calls", rep + 1); c17_leak_fail(when); }
     }
     if (tasks_after(t0) != t0) verdict_fail("C17:thread_outlives_call", "threads before %d after %d", t0, count_tasks());
     if (count_fds() != f0) verdict_fail("C17:fd_leak", "open file descriptors before %d after %d", f0, count_fds());
